@@ -153,7 +153,10 @@ def run_tlc(module, cfg=None, workers=16, env=None, timeout=900, simulate=None, 
            '-workers', str(workers), '-metadir', md, '-noGenerateSpecTE']
     if cfg:
         cmd += ['-config', cfg]
-    if coverage:
+    # TLC's -coverage made the exhaustive runs more than 20 times slower (one model: 47 s without, > 20 min with); it is
+    # only switched on when asked for explicitly.  Non-vacuity is shown by the expected-violation runs of the
+    # specification mutants and by the per-kind event tallies of the replayed traces instead.
+    if coverage and os.environ.get('VERIF_TLC_COVERAGE') == '1':
         cmd += ['-coverage', '1']
     if simulate is not None:
         cmd += ['-simulate', simulate]
